@@ -362,7 +362,7 @@ Inductive run_exit :=
 | XCompileFatal (remote : bool)  (* compile: remote error, or fatally invalid parameters: m.Done(procs, err); return *)
 | XCompileLost             (* compile: any other error: m.Done(procs, err); return *)
 | XNoLocation              (* a dependency has no location: m.Done(procs, nil); return *)
-| XCommitFail              (* g.Wait() != nil ("failed to commit combiner"): return *)
+| XCommitFail (remote : bool)  (* g.Wait() != nil ("failed to commit combiner"): m.Done(procs, err); return *)
 | XRan (k : errclass).     (* Worker.Run returned: m.Done(procs, err) *)
 
 Inductive mgr_call := CCancel | CDone (k : errclass).
@@ -377,14 +377,24 @@ Definition run_calls (x : run_exit) : list mgr_call :=
   | XCompileFatal remote => [CDone (if remote then DRemote else DTransport)]
   | XCompileLost => [CDone DTransport]
   | XNoLocation => [CDone DOk]
-  | XCommitFail => []
+  | XCommitFail remote => [CDone (if remote then DRemote else DTransport)]
   | XRan k => [CDone k]
+  end.
+
+(* The exit paths as they were before the fix "procs were not returned when
+   committing a dependency's combiner failed": that exit returned without
+   calling m.Done. Kept only as a named old model for the regression witness. *)
+Definition old_run_calls (x : run_exit) : list mgr_call :=
+  match x with
+  | XCommitFail _ => []
+  | _ => run_calls x
   end.
 
 Definition is_done (c : mgr_call) : bool := match c with CDone _ => true | CCancel => false end.
 Definition done_count (x : run_exit) : nat := length (filter is_done (run_calls x)).
+Definition old_done_count (x : run_exit) : nat := length (filter is_done (old_run_calls x)).
 Definition all_exits : list run_exit :=
-  [XCtxBeforeGrant; XCompileFatal true; XCompileFatal false; XCompileLost; XNoLocation; XCommitFail; XRan DOk; XRan DRemote; XRan DTransport].
+  [XCtxBeforeGrant; XCompileFatal true; XCompileFatal false; XCompileLost; XNoLocation; XCommitFail true; XCommitFail false; XRan DOk; XRan DRemote; XRan DTransport].
 
 (* the events a Run call contributes to the manager's history: Offer, then
    either the cancel or the grant followed by the Done calls of its exit path *)
@@ -392,6 +402,11 @@ Definition run_events (r : nat) (prio procs : Z) (i : nat) (x : run_exit) : list
   EOffer r prio procs ::
   (if run_granted x then [EGrant r i] else []) ++
   map (fun c => match c with CCancel => ECancel r | CDone k => EDone r k end) (run_calls x).
+
+Definition old_run_events (r : nat) (prio procs : Z) (i : nat) (x : run_exit) : list event :=
+  EOffer r prio procs ::
+  (if run_granted x then [EGrant r i] else []) ++
+  map (fun c => match c with CCancel => ECancel r | CDone k => EDone r k end) (old_run_calls x).
 
 (* ------------------------------------------------------------------ *)
 (* local executor: limiter with p tokens                               *)
